@@ -167,6 +167,29 @@ theorem system_exclusive (c : Nat → Cfg) (es : List (Nat × RunLoop.Ev)) (σ :
   have hI := (sysRun_inv c es {} sysInv_init).1 σ h
   exact ⟨Sim.inv_exclusive hI.1 fid, Sim.inv_active_owner hI.1 (hI.2 0).noDelegated fid⟩
 
+/-- "The result of an execution is recorded before any other process may decide whether to build that target": whenever
+a process of the system is about to decide about `f` (it has taken the lock and `BuildJob::start` is next, in the first
+or in the second loop), it owns `f`'s lock and NO execution of `f` is under way anywhere — every execution of `f` that
+was ever started has had its result recorded (an execution leaves `running` only through `recordEnd`). -/
+theorem system_decides_under_lock (c : Nat → Cfg) (es : List (Nat × RunLoop.Ev)) (σ : Sys) (h : sysRun c {} es = .ok σ)
+    (p f : Nat) (hp : (σ.procs p).pc = .l1own f ∨ (σ.procs p).pc = .l2own f) :
+    σ.L.owner f = some p ∧ Locks.active σ.L f = [] := by
+  have hI := (sysRun_inv c es {} sysInv_init).1 σ h
+  have hA := hI.2 p
+  have hheld : f ∈ (σ.procs p).held := by
+    rw [hA.heldPc]
+    rcases hp with hp | hp <;> simp [hp, heldAtPc]
+  refine ⟨hA.heldOwned f hheld, ?_⟩
+  rw [Locks.active, List.filter_eq_nil_iff]
+  intro e he hef
+  have hfid : e.fid = f := by simpa using hef
+  have hown := hI.1.own e he (hA.noDelegated e he)
+  rw [Locks.ownerOf, hfid, hA.heldOwned f hheld] at hown
+  have hpid : e.pid = p := by cases hown; rfl
+  have := hA.runningJobs e he hpid
+  rw [hfid] at this
+  exact hA.disjoint f hheld this
+
 /-- Non-vacuity: two processes contend for target 5; the second queues it, waits, and finds it done. -/
 example : (match sysRun (fun _ => {}) {}
     [(1, .tok), (1, .chk false), (1, .target 5), (1, .tryLock 5 true), (1, .begin 5), (1, .forked 5),
